@@ -83,6 +83,17 @@ def _valuation(cell):
     def v(a):
         if a[0] == "is" and render(a[1]) in ("self.side", "trade.side"):
             return cell[render(a[1])] in a[2]
+        # the quantity relation decided once with `cmp` and matched as an Ordering (instead of three `<` / `==` / `>` guards)
+        if a[0] == "is" and a[1][0] == "call" and a[1][1].rsplit("::", 1)[-1] in ("cmp", "partial_cmp") and len(a[1][2]) == 2:
+            l, r = render(a[1][2][0]), render(a[1][2][1])
+            names = {"Greater": "gt", "Equal": "eq", "Less": "lt"}
+            rel = cell["rel"]
+            if (l, r) == ("self.quantity_abs", "Decimal::abs(trade.quantity)"):
+                return any(names.get(n) == rel for n in a[2])
+            if (l, r) == ("Decimal::abs(trade.quantity)", "self.quantity_abs"):
+                flip = {"gt": "lt", "lt": "gt", "eq": "eq"}[rel]
+                return any(names.get(n) == flip for n in a[2])
+            return None
         c = atoms.atom_cmp(a)
         if c:
             op, l, r = c
